@@ -2372,9 +2372,9 @@ func (resp *Response) writeBodyStream(w *bufio.Writer, sendBody bool) (err error
 			}
 			if err == nil && sendBody {
 				err = writeBodyChunked(w, resp.bodyStream)
-			}
-			if err == nil {
-				err = resp.Header.writeTrailer(w)
+				if err == nil {
+					err = resp.Header.writeTrailer(w)
+				}
 			}
 		}
 	}
